@@ -7,7 +7,7 @@ ID = "C16"
 ANCHORS = ["corankco/ranking.py", "corankco/dataset.py", "corankco/element.py"]
 RULE = ("histories: a constructor (Dataset(...), from_raw_list; int, str, digit-str, leading-zero, mixed int/str names) "
         "followed by <= 6 operations among remove_elements, remove_elements_rate_presence_lower_than, remove_empty_rankings, "
-        "unified_rankings / unified_dataset, sub_problem_from_elements; after EVERY operation the complete view snapshot "
+        "unified_rankings / unified_dataset, sub_problem_from_elements, sub_problem_from_ids; after EVERY operation the complete view snapshot "
         "(buckets, positions, domain, sizes per ranking; universe, both id maps, counts, flags, position and bucket-id "
         "matrices) is compared with the model's and checked against the invariant; also the views of every algorithm's "
         "consensus rankings; non-trivial = history with >= 2 mutators on an incomplete dataset; distinct by JSON")
@@ -52,7 +52,7 @@ def gen(rng, index, tier):
         raw.append([["7"], ["07"]] if rng.random() < 0.5 else [["7", "07"]])
     ops = []
     for _ in range(rng.randint(0, 6)):
-        k = rng.choice([0, 0, 1, 2, 3, 3, 4, 4])
+        k = rng.choice([0, 0, 1, 2, 3, 3, 4, 4, 5])
         if k == 0:
             sub = [e for e in els if rng.random() < 0.35]
             ops.append([0, sub])
@@ -62,8 +62,11 @@ def gen(rng, index, tier):
             ops.append([2])
         elif k == 3:
             ops.append([3])
-        else:
+        elif k == 4:
             ops.append([4, [e for e in els if rng.random() < 0.5]])
+        else:
+            # sub_problem_from_ids: ids that exist at that point among these numbers
+            ops.append([5, [i for i in range(n) if rng.random() < 0.5]])
     return {"raw": raw, "ops": ops, "ctor": rng.choice(["init", "from_raw_list"]), "kind": kind}
 
 
@@ -88,6 +91,7 @@ def impl(case):
     from corankco.dataset import Dataset
     from corankco.ranking import Ranking
     res = []
+    id_names = {}
     try:
         try:
             if case["ctor"] == "init":
@@ -95,7 +99,7 @@ def impl(case):
             else:
                 ds = Dataset.from_raw_list([[lib.ordered_set(b) for b in r] for r in case["raw"]])
         except Exception as exc:  # noqa: BLE001
-            return {"steps": [ERR.get(type(exc).__name__, ["other:" + type(exc).__name__])]}
+            return {"steps": [ERR.get(type(exc).__name__, ["other:" + type(exc).__name__])], "id_names": {}}
         res.append([0, dscommon.snapshot(ds)])
         for op in case["ops"]:
             try:
@@ -116,6 +120,14 @@ def impl(case):
                     except Exception as exc:  # noqa: BLE001
                         ud = ERR.get(type(exc).__name__, ["other:" + type(exc).__name__])
                     res.append([0, views, ud, dscommon.snapshot(ds)])
+                elif op[0] == 5:
+                    ids = {i for i in op[1] if i in ds.mapping_id_elem}
+                    id_names[len(res)] = [dscommon.enc_elem(ds.mapping_id_elem[i]) for i in sorted(ids)]
+                    try:
+                        sp = [0, dscommon.snapshot(ds.sub_problem_from_ids(ids))]
+                    except Exception as exc:  # noqa: BLE001
+                        sp = ERR.get(type(exc).__name__, ["other:" + type(exc).__name__])
+                    res.append(sp + [dscommon.snapshot(ds)] if sp[0] == 0 else [sp[0], None, dscommon.snapshot(ds)])
                 else:
                     keep = set(_conv(ds, op[1]))
                     try:
@@ -125,7 +137,7 @@ def impl(case):
                     res.append(sp + [dscommon.snapshot(ds)] if sp[0] == 0 else [sp[0], None, dscommon.snapshot(ds)])
             except Exception as exc:  # noqa: BLE001
                 res.append(ERR.get(type(exc).__name__, ["other:" + type(exc).__name__]) + [dscommon.snapshot(ds)])
-        return {"steps": res}
+        return {"steps": res, "id_names": {str(k): v for k, v in id_names.items()}}
     except Exception as exc:  # noqa: BLE001
         return {"err": "other:" + type(exc).__name__ + ":" + str(exc)[:200]}
 
@@ -146,8 +158,11 @@ def ops(case, out):
     # element arguments must be named as the dataset names them at that point: int-like strings -> ints when the
     # dataset is all-int. The model gets both spellings, which is harmless (unknown names are ignored).
     mops = []
-    for op in case["ops"]:
-        if op[0] in (0, 4):
+    for k, op in enumerate(case["ops"]):
+        if op[0] == 5:
+            # the ids the implementation resolved at that point, by name (a step that was never reached: no names)
+            mops.append([4, out.get("id_names", {}).get(str(k + 1), [])])
+        elif op[0] in (0, 4):
             both = []
             for v in op[1]:
                 both.append(dscommon.enc_name(v))
@@ -167,6 +182,9 @@ def ops(case, out):
         if op[0] == 3 and dscommon.snapshot_is_protocol(st[3]):
             snap = st[3]
             res.append(("c16.unified", [snap[1], [v[0] for v in snap[0]], st[1]]))
+        elif op[0] == 5 and st[1] is not None and dscommon.snapshot_is_protocol(st[2]):
+            snap = st[2]
+            res.append(("c16.proj", [[v[0] for v in snap[0]], out["id_names"][str(k)], [v[0] for v in st[1][0]]]))
         elif op[0] == 4 and st[1] is not None and dscommon.snapshot_is_protocol(st[2]):
             snap = st[2]
             keep = []
@@ -198,7 +216,7 @@ def judge(case, out, answers):
     holds = all(bool(a) for a in answers[1:])
     if not holds:
         diff.append("invariant violated on a snapshot of the implementation")
-    opnames = {0: "remove_elements", 1: "remove_rate", 2: "remove_empty", 3: "unified", 4: "sub_problem"}
+    opnames = {0: "remove_elements", 1: "remove_rate", 2: "remove_empty", 3: "unified", 4: "sub_problem", 5: "sub_problem_from_ids"}
     if len(msteps) != len(isteps):
         diff.append("constructor outcome: model %s impl %s" % (msteps[0][:1], isteps[0][:1]))
     else:
@@ -221,7 +239,7 @@ def judge(case, out, answers):
                 if ms[2][0] != ist[2][0] or (ms[2][0] == 0 and dscommon.canon_snapshot(ms[2][1]) != dscommon.canon_snapshot(ist[2][1])):
                     diff.append("step %d unified_dataset differs" % k)
                 after = ist[3]
-            elif kind == 4:
+            elif kind in (4, 5):
                 if ms[0] != ist[0] or (ms[0] == 0 and dscommon.canon_snapshot(ms[1]) != dscommon.canon_snapshot(ist[1])):
                     diff.append("step %d sub_problem: model %s impl %s" % (k, ms[:1], ist[:1]))
                 after = ist[2]
